@@ -161,6 +161,7 @@ func cmdCheck(args []string) int {
 	maxPaths := fs.Int("max-paths", 0, "")
 	preempt := fs.Int("preempt", -1, "preemption bound (-1 unbounded)")
 	solverName := fs.String("solver", "z3", "z3 | z3-new | cvc5")
+	raceFlag := fs.Bool("race", false, "enable the happens-before race monitor (always on for C11)")
 	fs.Parse(args)
 	if os.Getenv("VERIF_TIER") != "" && *tier == "quick" {
 		// VERIF_TIER only refines, the command line decides the tier
@@ -218,6 +219,8 @@ func cmdCheck(args []string) int {
 		return 2
 	}
 	cfg := sym.Config{Workers: *workers, MaxPaths: *maxPaths, MaxPreempt: *preempt, SolverName: *solverName}
+	cfg.RaceDetect = *prop == "C11" || *raceFlag
+	run.race = cfg.RaceDetect
 	if *tier == "thorough" {
 		cfg.TimeoutMs = 120000
 	}
